@@ -21,7 +21,7 @@ F = "strax/context.py"
 _TMP_ROOT = tempfile.mkdtemp(prefix="verif_c01_")
 atexit.register(lambda: shutil.rmtree(_TMP_ROOT, ignore_errors=True))
 LAYOUT = {}
-TARGETS = ("ta", "tb", "tm", "mo1", "mo2", "ow", "ex", "fx", "mm", "two")
+TARGETS = ("ta", "tb", "tm", "mo1", "mo2", "ow", "ex", "fx", "mm", "two", "dc", "dd")
 _CLS = {}
 
 
@@ -159,7 +159,29 @@ def _classes(rechunk):
     FX = mk("fx", ("ex", "ta"), "kfx", fx_compute, [(("field fxv", "fxv"), i64)])
     MM = mk("mm", ("mo1", "mo2"), "kmm", mm_compute, [(("field mmv", "mmv"), i64)])
     TWO = mk("two", ("ta", "src2"), "ktwo", two_compute, [(("field tw", "tw"), i64)])
-    _CLS[rechunk] = [Src, Src2, A, A2, B, M, MO, OW, EX, FX, MM, TWO]
+    def dc_compute(self, ka, start, end):
+        """down-chunking: the chunk is handed on in two pieces, cut at the first clean break between rows (the second piece has
+        no rows when there is none)"""
+        r = np.zeros(len(ka), self.dtype)
+        r["time"], r["endtime"], r["dcv"] = ka["time"], ka["endtime"], ka["x"] + 3
+        k_cut = len(r)
+        for k in range(1, len(r)):
+            if r["endtime"][:k].max() <= r["time"][k]:
+                k_cut = k
+                break
+        cut = int(r["endtime"][:k_cut].max()) if len(r) else int(start)
+        yield self.chunk(start=start, end=cut, data=r[:k_cut], data_type="dc")
+        yield self.chunk(start=cut, end=end, data=r[k_cut:], data_type="dc")
+
+    def dd_compute(self, kdc):
+        r = np.zeros(len(kdc), self.dtype)
+        r["time"], r["endtime"], r["ddv"] = kdc["time"], kdc["endtime"], kdc["dcv"] * 2
+        return r
+
+    DC = type("P_dc", (strax.DownChunkingPlugin,), dict(provides="dc", depends_on=("ta",), data_kind="kdc", dtype=base + [(("field dcv", "dcv"), i64)],
+                                                        compute=dc_compute, __version__="0", rechunk_on_save=False))
+    DD = mk("dd", ("dc",), "kdd", dd_compute, [(("field ddv", "ddv"), i64)])
+    _CLS[rechunk] = [Src, Src2, A, A2, B, M, MO, OW, EX, FX, MM, TWO, DC, DD]
     return _CLS[rechunk]
 
 
@@ -185,12 +207,16 @@ def _whole(rows, target):
         return [(t, e, x[(t, e)] + sum(x.values())) for (t, e) in rows]
     if target == "mm":
         return [(t, e, x[(t, e)] + 1 + (x[(t, e)] if x[(t, e)] % 4 == 0 else 0)) for (t, e) in rows]
+    if target == "dc":
+        return [(t, e, x[(t, e)] + 3) for (t, e) in rows]
+    if target == "dd":
+        return [(t, e, 2 * (x[(t, e)] + 3)) for (t, e) in rows]
     if target == "two":
         rows2 = [tuple(r) for r in LAYOUT["rows2"]]
         return [(t, e, x[(t, e)] + sum(7 * t2 + e2 for (t2, e2) in rows2 if e2 > t and t2 < e)) for (t, e) in rows]
 
 
-FIELD = dict(ta="x", tb="z", tm="s", mo1="p", mo2="q", ow="n", ex="tot", fx="fxv", mm="mmv", two="tw")
+FIELD = dict(ta="x", tb="z", tm="s", mo1="p", mo2="q", ow="n", ex="tot", fx="fxv", mm="mmv", two="tw", dc="dcv", dd="ddv")
 
 
 def _native(i):
@@ -262,7 +288,7 @@ def _gen(rng, tier):
         j = rng.randrange(1, len(z))
         cutsets.append(z[:j + 1] + z[j:])           # with a zero-duration chunk
         for cuts in cutsets:
-            for target in (TARGETS if thorough else rng.sample(TARGETS, 5)):
+            for target in (TARGETS if thorough else rng.sample(TARGETS[:-2], 4) + [rng.choice(TARGETS[-2:])]):
                 for (proc, workers, lazy, mm) in (settings if thorough else rng.sample(settings, 2)):
                     for stored in (stored_sets if thorough else rng.sample(stored_sets, 2)):
                         for rechunk in ((False, True) if thorough else (rng.random() < 0.5,)):
@@ -285,6 +311,7 @@ pipeline = Contract(
                           "independent second source with long rows and its own chunking) "
                           "on the grid 0..12; 2 (thorough: 4) row sets x source chunkings with 0/1/2/4 inner cuts and a zero-duration chunk x "
                           "targets x {single_thread, threaded_mailbox with 1..2 workers, lazy / eager, max_messages 2..4} x stored subsets "
-                          "{none, ta, src+ta2, ta+ta2+tb} x rechunk_on_save with a tiny target size; real Context with a DataDirectory. Loop and "
-                          "down-chunking plugins are not in the graph.",
+                          "{none, ta, src+ta2, ta+ta2+tb} x rechunk_on_save with a tiny target size; real Context with a DataDirectory; dc (a "
+                          "down-chunking plugin handing every chunk on in two pieces, one possibly without rows) and dd (paced by dc). Loop "
+                          "plugins are not in the graph.",
                     nontrivial=lambda i: len(i["cuts"]) > 2))
